@@ -22,9 +22,22 @@ pub const ALPHABET: &[(&str, &str, &str, bool)] = &[
   ("F", "ns2", "n2", true),
   ("G", "ns3", "n1", false),
   ("H", "ns4", "n3", true),
+  // the wide alphabet (Workspace!WideModels): keys of their own, used by the random histories that store many models at once
+  ("W1", "ns5", "n5", true),
+  ("W2", "ns6", "n6", true),
+  ("W3", "ns7", "n7", true),
+  ("W4", "ns8", "n8", false),
+  ("W5", "ns9", "n9", true),
+  ("W6", "ns10", "n10", true),
+  ("W7", "ns11", "n11", true),
+  ("W8", "ns12", "n12", true),
+  ("W9", "ns13", "n13", false),
+  ("W10", "ns14", "n14", true),
 ];
+const N_CORE: usize = 9;
 pub const NAMES: &[&str] = &["n1", "n2", "n3", "n4"];
 pub const NAMESPACES: &[&str] = &["ns1", "ns2", "ns3", "ns4"];
+const ALL_NAMES: &[&str] = &["n1", "n2", "n3", "n4", "n5", "n6", "n7", "n8", "n9", "n10", "n11", "n12", "n13", "n14"];
 
 pub fn definitions_of(id: &str) -> dmntk_model::model::Definitions {
   let (id, ns, nm, b) = ALPHABET.iter().find(|m| m.0 == id).unwrap_or_else(|| tool_error(&format!("unknown model {}", id)));
@@ -34,7 +47,7 @@ pub fn definitions_of(id: &str) -> dmntk_model::model::Definitions {
 fn observe(ws: &Workspace, ev: J, res: &str) -> J {
   let (stored, by_ns, by_nm, evals) = ws.verif_snapshot();
   let mut evalok = vec![];
-  for nm in NAMES {
+  for nm in ALL_NAMES {
     if let Ok(v) = ws.evaluate_invocable(nm, "v", &FeelContext::default()) {
       let text = match v {
         Value::String(s) => s,
@@ -100,7 +113,7 @@ pub fn run_path(path: &[J]) -> Vec<J> {
 }
 
 fn random_path(rng: &mut Rng, len: usize, big: bool) -> Vec<J> {
-  let n_models = if big { ALPHABET.len() } else { 6 };
+  let n_models = if big { N_CORE } else { 6 };
   let mut p = vec![];
   for _ in 0..len {
     let k = rng.below(100);
@@ -117,6 +130,31 @@ fn random_path(rng: &mut Rng, len: usize, big: bool) -> Vec<J> {
       json!({"op": "deploy"})
     } else {
       json!({"op": "eval", "nm": rng.pick(NAMES)})
+    });
+  }
+  p
+}
+
+/// Histories over the wide alphabet: mostly adds of models with keys of their own, so that five to ten models are
+/// stored when a deploy comes (a deploy that handles the stored models in batches must not lose any), removals of
+/// single models, evaluations of every name.
+fn random_path_wide(rng: &mut Rng, len: usize) -> Vec<J> {
+  let mut p = vec![];
+  for _ in 0..len {
+    let k = rng.below(100);
+    let (id, ns, nm, _) = ALPHABET[N_CORE - 4 + rng.below((ALPHABET.len() - N_CORE + 4) as u64) as usize];
+    p.push(if k < 45 {
+      json!({"op": "add", "m": id})
+    } else if k < 50 {
+      json!({"op": "replace", "m": id})
+    } else if k < 62 {
+      json!({"op": "remove", "ns": ns, "nm": nm})
+    } else if k < 63 {
+      json!({"op": "clear"})
+    } else if k < 85 {
+      json!({"op": "deploy"})
+    } else {
+      json!({"op": "eval", "nm": nm})
     });
   }
   p
@@ -219,6 +257,13 @@ pub fn check(mut ctx: Ctx, replay: Option<J>) -> ! {
     let events = run_path(&path);
     runs.push((path, events));
   }
+  let n_wide = if quick { 30 } else { 300 };
+  for _ in 0..n_wide {
+    let path = random_path_wide(&mut rng, 60);
+    let events = run_path(&path);
+    runs.push((path, events));
+  }
+  ctx.cov("random_histories_wide_alphabet", json!(n_wide));
   ctx.cov("random_histories", json!(n_hist));
   ctx.cov("random_history_length", json!(len));
   let total = runs.len();
